@@ -101,7 +101,7 @@ def gen_gt(rng, idx, small=True):
             ln = 0 if k == 1 else rng.range(1, 12)
             depth = rng.range(1, 3)
             # components that are plain but look like traversal once trimmed or normalised are deliberate
-            path = [rng.choice([b"d", b"sub", b"x y", b".. ", b". ", b" ..", b"...", b"d "]) for _ in range(depth - 1)] + [rng.choice([b"f", b"file", b"a.bin", b"\xc3\xb1", b".. f", b"f "]) + b"%d" % i + (b" " if rng.chance(1, 8) else b"")]
+            path = [rng.choice([b"d", b"sub", b"x y", b".. ", b". ", b" ..", b"...", b"d ", b"..\\..", b"a\\b"]) for _ in range(depth - 1)] + [rng.choice([b"f", b"file", b"a.bin", b"\xc3\xb1", b".. f", b"f ", b"..\\..\\..\\..\\bystander\\v"]) + b"%d" % i + (b" " if rng.chance(1, 8) else b"")]
             files.append(TFile(ln, path, gen_content(rng, ln)))
         # no file at a path another file needs as a directory (a torrent that cannot be exported at all)
         kept = []
@@ -281,6 +281,12 @@ def gen_world(rng, ntorrents=None, features=()):
                         real = (b"bystander", b"linked_%d" % len(w.ghost_links))
                         if w.add_file(real, f.content):
                             w.ghost_links[sd + (b"sym%d" % len(w.ghost_links),)] = real      # correct data, reachable only through a link
+            for g in w.gts:
+                for f in g.files:
+                    if not f.pad and f.length > 0 and rng.chance(1, 2):
+                        # a link whose OWN size (the length of its target string) is the declared length of a torrent file;
+                        # it leads nowhere — a walk that looks at the link itself must not take it for a candidate
+                        w.ghost_links[sd + (b"len%d_%d" % (f.length, len(w.ghost_links)),)] = b"g" * f.length
             w.ghost_links[sd + (b"symdir",)] = (b"bystander",)
             w.ghost_links[sd + (b"dangling",)] = (b"no", b"such", b"file")
             w.ghost_links[sd + (b"loop",)] = sd
@@ -379,8 +385,10 @@ def materialise(w, base):
     tdir = os.path.join(base, "t")
     os.makedirs(tdir)
     tpaths = []
+    import hashlib as _hl
     for i, d in enumerate(w.docs):
-        tp = os.path.join(tdir, "%d.torrent" % i)
+        # some collections name torrent files by a digest of the FILE (40 hex digits that are not the info-hash)
+        tp = os.path.join(tdir, ("%s.torrent" % _hl.sha1(b"%d" % i + d).hexdigest()) if getattr(w, "hex_names", False) or i % 3 == 2 else "%d.torrent" % i)
         with open(tp, "wb") as f:
             f.write(d)
         tpaths.append(tp)
@@ -470,7 +478,7 @@ def execute(w, keep=False, timeout=30):
         for p, tgt in sorted(ghosts.items()):
             fp = path_bytes(root, p)
             os.makedirs(os.path.dirname(fp), exist_ok=True)
-            os.symlink(path_bytes(root, tgt), fp)
+            os.symlink(tgt if isinstance(tgt, bytes) else path_bytes(root, tgt), fp)     # bytes: a raw (relative) target string
         follow = sorted(getattr(w, "dir_links", {}))
         before_dirs, before_files = snapshot(root, set(ghosts), follow)
         export_arg = w.export_arg if w.export_arg is not None else os.path.join(root, *[c.decode("utf-8", "surrogateescape") for c in w.export])
@@ -507,7 +515,7 @@ def execute(w, keep=False, timeout=30):
             out, rc, err = (e.stdout or b"").decode("utf-8", "replace"), "timeout", ""
         after_dirs, after_files = snapshot(root, set(ghosts), follow)
         r = RunResult()
-        r.ghost_changed = any((not os.path.islink(path_bytes(root, p))) or os.readlink(path_bytes(root, p)) != path_bytes(root, tgt)
+        r.ghost_changed = any((not os.path.islink(path_bytes(root, p))) or os.readlink(path_bytes(root, p)) != (tgt if isinstance(tgt, bytes) else path_bytes(root, tgt))
                               for p, tgt in ghosts.items())
         r.world, r.root, r.rc, r.stdout, r.stderr = w, root, rc, out, err
         r.scan_abs = r_scan_abs
@@ -1360,6 +1368,42 @@ def gen_world_path_max(rng):
     w.add_file((b"bystander", b"note.txt"), b"do not touch")
     w.threads = rng.choice([1, 2, 4])
     w.tag = "export paths beyond PATH_MAX"
+    return w
+
+
+def gen_world_many_identical(rng):
+    """C04: every piece already verifies, and the scan directory holds some thirty byte-identical copies of every file of a
+    multi-file piece (more than the 20 elements up to which an unstable sort happens to be stable): nothing may be written"""
+    w = World()
+    files = [TFile(5, [b"i%d.bin" % i], gen_content(rng, 5)) for i in range(2)]
+    g = GT(b"ident", 4, files, True)
+    w.gts = [g]; w.docs = [g.doc]
+    w.dirs.add(w.export)
+    w.scan = [(b"scan0",)]
+    for i, f in enumerate(files):
+        w.add_file(tuple(g.target(w.export, f)), f.content)
+        for k in range(rng.range(22, 34)):
+            w.add_file((b"scan0", b"c%d" % k, b"copy%d" % i), f.content)
+    w.add_file((b"bystander", b"note.txt"), b"do not touch")
+    w.threads = rng.choice([1, 2])
+    w.tag = "many identical copies, export complete"
+    return w
+
+
+def gen_world_hundred_thousand_pieces(rng):
+    """C15: more than 100 000 pieces (one byte each): one progress line per piece, the last one accounting for all of them.
+    Judged on the outcome (the model's list-based run is quadratic here)."""
+    w = World()
+    n = rng.choice([100003, 120000])
+    f = TFile(n, [b"big.bin"], bytes((i * 7 + i // 251) & 255 for i in range(n)))
+    g = GT(b"big.bin", 1, [f], False)
+    w.gts = [g]; w.docs = [g.doc]; w.has_truth = False
+    w.dirs.add(w.export)
+    w.scan = [(b"scan0",)]
+    w.add_file((b"scan0", b"copy.bin"), f.content)
+    w.threads = rng.choice([1, 3])
+    w.expect_lines = n
+    w.tag = "more than 100000 pieces"
     return w
 
 
